@@ -1079,6 +1079,14 @@ def s_int_from_bytes(b, byteorder="big", signed=False):
     items = list(b)
     if byteorder == "big":
         items = items[::-1]
+    if any(type(x).__name__ == "SZInt" for x in items):  # word-level octets: the value stays a linear integer term
+        z = getattr(b, "zsrc", None)
+        if z is not None and z[1] == byteorder:
+            return z[0]
+        v = 0
+        for i, x in enumerate(items):
+            v = x * (1 << (8 * i)) + v
+        return v
     bits = []
     for x in items:
         x = SInt.lift(x)
